@@ -60,6 +60,18 @@ def gen_placement(rng):
             return
         b = rng.choice(pool)
         r = rng.random()
+        if r < 0.12 and b in bufs + [v for v in views if v[1].startswith("memref<") and "strided" not in v[1]]:
+            # a cast view (same extent): snax.layout_cast / memref.cast of a buffer or of another cast view, used later
+            n = len(views)
+            size = b[1].split("x")[0].split("<")[1]
+            if rng.random() < 0.6:
+                vt = f"memref<{size}xi8, #tsl.tsl<[{size}] -> (1)>>"
+                lines.append("  " * ind + f'%v{n} = "snax.layout_cast"({b[0]}) : ({b[1]}) -> {vt}')
+            else:
+                vt = f"memref<{size}xi8>"
+                lines.append("  " * ind + f'%v{n} = "memref.cast"({b[0]}) : ({b[1]}) -> {vt}')
+            views.append((f"%v{n}", vt))
+            return
         if r < 0.25 and b in bufs:
             # a view of the buffer, used later
             n = len(views)
